@@ -1,12 +1,15 @@
 package sim
 
 import (
+	"crypto/sha256"
 	"database/sql"
+	"encoding/hex"
 	"encoding/json"
 	"fmt"
 	"path/filepath"
 	"sort"
 	"strings"
+	"time"
 
 	_ "github.com/mattn/go-sqlite3"
 )
@@ -45,6 +48,11 @@ func coreC06(tier string) []RunSpec {
 	for sk := 0; sk < 6; sk++ {
 		for k := 0; k < 2; k++ {
 			out = append(out, RunSpec{Profile: "core:semantic-invalid", Params: map[string]int{"sem": 1, "sk": sk, "k": k}})
+		}
+	}
+	for lmk := 0; lmk < 20; lmk++ {
+		for k := 0; k < 2; k++ {
+			out = append(out, RunSpec{Profile: "core:lock-secret-mutant", Params: map[string]int{"lsm": 1, "lmk": lmk, "k": k}})
 		}
 	}
 	return out
@@ -685,6 +693,214 @@ func c06SemanticInvalid(rc *RunCtx, m *MW, snapshot func() string, i int) {
 	after(r2)
 }
 
+// c06LockSecretMutants: inputs whose secret is a NUT-10 spending condition with one element of its
+// inside garbled (tag keys and values, key lists, numbers, data, nesting), presented through swap
+// and melt - as a forged proof (the lock is looked at before the signature) and as a proof the
+// mint really signed (it signs any secret blindly). No handler may panic, and a refusal leaves
+// everything as it was.
+func c06LockSecretMutants(rc *RunCtx, m *MW, snapshot func() string, i int) {
+	W, T := rc.W, rc.T
+	if W.LockRing == nil {
+		W.LockRing = NewKeyRing(2)
+	}
+	for len(W.LockRing.Priv) < 5 {
+		W.LockRing.Priv = append(W.LockRing.Priv, NewKeyRing(1).Priv[0])
+	}
+	kr := W.LockRing
+	htlc := T.Chance("lsm.htlc", 1, 3)
+	mk := rc.P("lmk", -1)
+	if mk < 0 {
+		mk = T.Choose("lsm.kind", 20)
+	}
+	genuine := T.Chance("lsm.genuine", 1, 2)
+	viaMelt := T.Chance("lsm.melt", 1, 3)
+	rc.Op(fmt.Sprintf("lock-secret-mutant kind=%d htlc=%v genuine=%v melt=%v", mk, htlc, genuine, viaMelt))
+	pre := randHex(32)
+	pb, _ := hex.DecodeString(pre)
+	hh := sha256.Sum256(pb)
+	kind := "P2PK"
+	data := any(kr.PubHex(0))
+	if htlc {
+		kind, data = "HTLC", hex.EncodeToString(hh[:])
+	}
+	tags := []any{
+		[]any{"sigflag", "SIG_INPUTS"},
+		[]any{"n_sigs", "2"},
+		[]any{"pubkeys", kr.PubHex(1), kr.PubHex(2)},
+		[]any{"locktime", fmt.Sprint(time.Now().Unix() + 3600)},
+		[]any{"refund", kr.PubHex(3)},
+	}
+	body := map[string]any{"nonce": randHex(16), "data": data, "tags": tags}
+	setTag := func(idx int, v any) { tags[idx] = v }
+	desc := ""
+	switch mk {
+	case 0:
+		setTag(2, []any{"pubkeys", kr.PubHex(1), "02zz" + randHex(31)})
+		desc = "pubkeys entry not hex"
+	case 1:
+		setTag(2, []any{"pubkeys", kr.PubHex(1)[:20], kr.PubHex(2)})
+		desc = "pubkeys entry too short"
+	case 2:
+		setTag(2, []any{"pubkeys", "", kr.PubHex(2)})
+		desc = "pubkeys entry empty"
+	case 3:
+		setTag(2, []any{"pubkeys"})
+		desc = "pubkeys tag without keys, n_sigs 2"
+	case 4:
+		setTag(2, []any{"pubkeys", 7, kr.PubHex(2)})
+		desc = "pubkeys entry is a number"
+	case 5:
+		setTag(1, []any{"n_sigs", "two"})
+		desc = "n_sigs not numeric"
+	case 6:
+		setTag(1, []any{"n_sigs", "-1"})
+		desc = "n_sigs negative"
+	case 7:
+		setTag(1, []any{"n_sigs", "99999999999999999999999"})
+		desc = "n_sigs huge"
+	case 8:
+		setTag(1, []any{"n_sigs"})
+		desc = "n_sigs without value"
+	case 9:
+		setTag(3, []any{"locktime", "soon"})
+		desc = "locktime not numeric"
+	case 10:
+		setTag(3, []any{"locktime", "1"})
+		setTag(4, []any{"refund", "03" + randHex(5)})
+		desc = "expired locktime, refund key garbled"
+	case 11:
+		setTag(3, []any{"locktime", "1"})
+		setTag(4, []any{"refund"})
+		desc = "expired locktime, refund tag without keys"
+	case 12:
+		body["data"] = "zz" + randHex(10)
+		desc = "data garbled"
+	case 13:
+		body["data"] = ""
+		desc = "data empty"
+	case 14:
+		body["data"] = 5
+		desc = "data is a number"
+	case 15:
+		body["tags"] = []any{[]any{}, []any{"pubkeys", kr.PubHex(1)}, "notalist"}
+		desc = "tags with an empty and a non-list entry"
+	case 16:
+		body["tags"] = nil
+		desc = "tags null"
+	case 17:
+		delete(body, "nonce")
+		setTag(0, []any{"sigflag", "SIG_EVERYTHING"})
+		desc = "nonce missing, unknown sigflag"
+	case 18:
+		setTag(2, []any{"pubkeys", kr.PubHex(1), kr.PubHex(1), "02" + randHex(32)})
+		desc = "pubkeys duplicate and a point not on the curve"
+	case 19:
+		kind = "P2PKH"
+		desc = "unknown kind"
+	}
+	bj, _ := json.Marshal(body)
+	secret := fmt.Sprintf(`["%s",%s]`, kind, string(bj))
+	msg := []byte(secret)
+	wit := map[string]any{"signatures": []string{SignMsg(kr.Priv[0], msg, 0), SignMsg(kr.Priv[1], msg, 0), SignMsg(kr.Priv[3], msg, 0)}}
+	if htlc {
+		wit["preimage"] = pre
+	}
+	wj, _ := json.Marshal(wit)
+	ks := W.ActiveKeyset("A")
+	a := NewActor(W, fmt.Sprintf("s%d.lsm", i))
+	var proof *HProof
+	var lq *MeltQuote
+	ok := true
+	rc.Quietly(func() {
+		if genuine {
+			src := m.TakeFor("A", 8)
+			if src == nil {
+				ok = false
+				return
+			}
+			f := m.feeFor("A", src)
+			amts := Split(SumH(src) - f)
+			outs := make([]*HOutput, len(amts))
+			for k, x := range amts {
+				sec := ""
+				if k == len(amts)-1 {
+					sec = secret // the largest denomination carries the mutated secret
+				}
+				outs[k] = W.NewOutput(x, ks.ID, sec)
+			}
+			ps, r := m.User.Swap("A", src, outs)
+			if !r.OK() || len(ps) == 0 {
+				ok = false
+				return
+			}
+			m.Spent["A"] = append(m.Spent["A"], src...)
+			proof = ps[len(ps)-1]
+			m.User.remove("A", []*HProof{proof})
+			proof.Witness = string(wj)
+		} else {
+			base := m.pickProofs("A", 1)
+			if base == nil {
+				ok = false
+				return
+			}
+			cp := *base[0]
+			cp.Secret, cp.Witness = secret, string(wj)
+			proof = &cp
+		}
+		if viaMelt {
+			inv := W.LN.NewExternalInvoice(1000)
+			W.LN.Scripts[inv.Hash] = &LNScript{Pay: "succeeded"}
+			lq, _ = a.ReqMeltQuote("A", inv.Bolt11, 0)
+			if lq == nil {
+				ok = false
+			}
+		}
+	})
+	if !ok || proof == nil {
+		return
+	}
+	fee := m.feeFor("A", []*HProof{proof})
+	var outs []*HOutput
+	if proof.Amount > fee {
+		outs = W.NewOutputs(Split(proof.Amount-fee), ks.ID)
+	}
+	before := snapshot()
+	panicsBefore := len(W.Net.Panics)
+	var r *Resp
+	rc.S.BeginEpisode()
+	rc.S.Run1(fmt.Sprintf("s%d.lsmreq", i), W.Ext, func() {
+		if viaMelt {
+			r = a.Melt("A", lq.ID, []*HProof{proof})
+		} else {
+			r = a.Post("A", "/v1/swap", map[string]any{"inputs": proofsJ([]*HProof{proof}), "outputs": outsJ(outs)})
+		}
+	})
+	rc.S.Probe("c06_lock_secret_mutant")
+	fp := fmt.Sprintf("lock-secret|%d", mk)
+	if len(W.Net.Panics) > panicsBefore {
+		W.Book.Violate("C06.panic", fp, "input with a NUT-10 secret whose inside is garbled (%s; htlc=%v genuine=%v melt=%v) made the handler panic: %s", desc, htlc, genuine, viaMelt, cut(W.Net.Panics[len(W.Net.Panics)-1], 300))
+		return
+	}
+	rc.Nontrivial = true
+	if r == nil || r.Err != nil {
+		return
+	}
+	if r.OK() {
+		// accepted (for instance a kind the mint does not treat as a condition): the proof is used up
+		if viaMelt {
+			m.afterMelt("A", lq, []*HProof{proof}, r)
+		} else if genuine {
+			sigs, _ := r.Body["signatures"].([]any)
+			m.Spent["A"] = append(m.Spent["A"], proof)
+			m.User.Purse["A"] = append(m.User.Purse["A"], W.Unblind("A", outs, sigs)...)
+		}
+		return
+	}
+	if after := snapshot(); after != before {
+		W.Book.Violate("C06.changed_state", fp, "request with a garbled NUT-10 secret (%s) was answered %v but changed state: %s", desc, r, diffDump(before, after))
+	}
+}
+
 func c06URLMutants(rc *RunCtx, m *MW, snapshot func() string, i int) {
 	W := m.W
 	T := rc.T
@@ -756,12 +972,16 @@ func runC06(rc *RunCtx) {
 		if !hasOp && T.Chance("bg", 1, 2) {
 			m.Step(T.Pick("bg.kind", 1, 3, 2, 0, 1, 0, 0, 1, 1), false)
 		}
-		if (!hasOp && rc.P("rr", 0) == 0 && rc.P("sem", 0) == 0 && T.Chance("urlmutant", 1, 6)) || rc.P("url", 0) == 1 {
+		if (!hasOp && rc.P("rr", 0) == 0 && rc.P("sem", 0) == 0 && rc.P("lsm", 0) == 0 && T.Chance("urlmutant", 1, 6)) || rc.P("url", 0) == 1 {
 			c06URLMutants(rc, m, snapshot, i)
 			return
 		}
-		if (!hasOp && rc.P("rr", 0) == 0 && T.Chance("semantic", 1, 5)) || rc.P("sem", 0) == 1 {
+		if (!hasOp && rc.P("rr", 0) == 0 && rc.P("lsm", 0) == 0 && T.Chance("semantic", 1, 5)) || rc.P("sem", 0) == 1 {
 			c06SemanticInvalid(rc, m, snapshot, i)
+			return
+		}
+		if (!hasOp && rc.P("rr", 0) == 0 && rc.P("sem", 0) == 0 && T.Chance("locksecret", 1, 5)) || rc.P("lsm", 0) == 1 {
+			c06LockSecretMutants(rc, m, snapshot, i)
 			return
 		}
 		if (!hasOp && T.Chance("racingreject", 1, 6)) || rc.P("rr", 0) == 1 {
